@@ -627,4 +627,111 @@ theorem loadEntry_denotes (env : EnvOK tab R K r) (hr : Renders data e) (hd : En
 
 end entry
 
+/-! ### rejection: a value with no unit available, anywhere in an entry -/
+
+/-- somewhere inside the value `x` of schema type `ty` there is a bare number of a kind for which the file has no
+default unit -/
+inductive HasBareNoUnit (units : List (Kind × String)) : Ty → YVal → Prop
+  | here (k : Kind) (v : Rat) (h : units.lookup k = none) : HasBareNoUnit units (.qty k) (.num v)
+  | left (a b : Ty) (x y : YVal) (h : HasBareNoUnit units a x) : HasBareNoUnit units (.pair a b) (.seq [x, y])
+  | right (a b : Ty) (x y : YVal) (h : HasBareNoUnit units b y) : HasBareNoUnit units (.pair a b) (.seq [x, y])
+  | item (t : Ty) (l : List YVal) (x : YVal) (hx : x ∈ l) (h : HasBareNoUnit units t x) : HasBareNoUnit units (.list t) (.seq l)
+
+theorem mapM_error_of_mem {α β ε : Type} (f : α → Except ε β) :
+    ∀ (l : List α) (x : α), x ∈ l → (∃ e, f x = .error e) → ∃ e, l.mapM f = .error e := by
+  intro l
+  induction l with
+  | nil => intro x hx; simp at hx
+  | cons a l ih =>
+    intro x hx he
+    rw [List.mapM_cons]
+    cases ha : f a with
+    | error e => exact ⟨e, by simp⟩
+    | ok b =>
+      rcases List.mem_cons.mp hx with rfl | hx'
+      · obtain ⟨e, he⟩ := he; rw [ha] at he; cases he
+      · obtain ⟨e, he'⟩ := ih x hx' he
+        exact ⟨e, by simp [he']⟩
+
+theorem load_error_of_bare {tab : UnitTable} {units : List (Kind × String)} {ty : Ty} {x : YVal}
+    (h : HasBareNoUnit units ty x) : ∃ e, load tab units ty x = .error e := by
+  induction h with
+  | here k v h => exact ⟨.inputData, by simp [load, qtyLoad, h]⟩
+  | left a b x y _ ih =>
+    obtain ⟨e, he⟩ := ih
+    exact ⟨e, by rw [load]; simp [he]⟩
+  | right a b x y _ ih =>
+    obtain ⟨e, he⟩ := ih
+    rw [load]
+    cases hx : load tab units a x with
+    | error e' => exact ⟨e', by simp⟩
+    | ok x' => exact ⟨e, by simp [he]⟩
+  | item t l x hx _ ih =>
+    obtain ⟨e, he⟩ := mapM_error_of_mem (load tab units t) l x hx ih
+    exact ⟨e, by rw [load]; simp [he]⟩
+
+theorem loadMember_error_of_present {tab : UnitTable} {units : List (Kind × String)} {data : List (String × YVal)}
+    {m : Member} {x : YVal} (hx : data.lookup m.name = some x) (he : ∃ e, load tab units m.ty x = .error e) :
+    ∃ e, loadMember tab units data m = .error e := by
+  obtain ⟨e, he⟩ := he
+  refine ⟨e, ?_⟩
+  unfold loadMember
+  rw [hx]
+  cases m.mode <;> simp [he]
+
+theorem loadEntry_error_of_member {tab : UnitTable} {R : QV} {K : UnitQ} {units : List (Kind × String)}
+    {data : List (String × YVal)} {m : Member} {x : YVal} (hm : m ∈ thermoSchema) (hx : data.lookup m.name = some x)
+    (he : ∃ e, load tab units m.ty x = .error e) : ∃ e, loadEntry tab R K units (.map data) = .error e := by
+  obtain ⟨e, he'⟩ := loadMembers_error thermoSchema m hm (loadMember_error_of_present hx he)
+  exact ⟨e, by simp [loadEntry, he']⟩
+
+/-! ### unpacking a successful load -/
+
+theorem bind_eq_ok {ε α β : Type} {x : Except ε α} {f : α → Except ε β} {b : β} (h : (x >>= f) = .ok b) :
+    ∃ a, x = .ok a ∧ f a = .ok b := by
+  cases x with
+  | error e => simp at h
+  | ok a => exact ⟨a, rfl, by simpa using h⟩
+
+/-- what a successful `loadEntry` went through -/
+theorem loadEntry_ok_inv {tab : UnitTable} {R : QV} {K : UnitQ} {units : List (Kind × String)}
+    {data : List (String × YVal)} {c : Loaded} (h : loadEntry tab R K units (.map data) = .ok c) :
+    ∃ p Tq cp, loadMembers tab units data thermoSchema = .ok p ∧ cTref p = .ok Tq ∧ cH R Tq p = .ok c.H ∧
+      cS R p = .ok c.S ∧ cCp R K p = .ok cp ∧ c.cp = dictOfList cp ∧ Tq.inUnits K = .ok c.Tref := by
+  simp only [loadEntry] at h
+  obtain ⟨p, hp, h⟩ := bind_eq_ok h
+  cases hc : construct R K p with
+  | error e => simp [hc] at h
+  | ok c' =>
+    simp only [hc] at h
+    cases h
+    unfold construct at hc
+    obtain ⟨Tq, h1, hc⟩ := bind_eq_ok hc
+    obtain ⟨H, h2, hc⟩ := bind_eq_ok hc
+    obtain ⟨S, h3, hc⟩ := bind_eq_ok hc
+    obtain ⟨cp, h4, hc⟩ := bind_eq_ok hc
+    obtain ⟨range, h5, hc⟩ := bind_eq_ok hc
+    obtain ⟨Tref, h6, hc⟩ := bind_eq_ok hc
+    obtain ⟨_, h7, hc⟩ := bind_eq_ok hc
+    cases hc
+    exact ⟨p, Tq, cp, hp, h1, h2, h3, h4, rfl, h6⟩
+
+theorem inUnits_ok_dim {q : QV} {u : UnitQ} {x : Rat} (h : q.inUnits u = .ok x) : ∃ v, q = .qty v u.dim := by
+  cases q with
+  | num v => simp [QV.inUnits] at h
+  | qty v d =>
+    refine ⟨v, ?_⟩
+    simp only [QV.inUnits] at h
+    split at h
+    · cases h
+    · by_cases hd : d.sub u.dim = Dim.zero
+      · rw [(Dim.sub_eq_zero_iff d u.dim).mp hd]
+      · rw [build_of_ne hd] at h; simp at h
+
+theorem lookup_of_member {tab : UnitTable} {units : List (Kind × String)} {data : List (String × YVal)} {p : Params}
+    (hp : loadMembers tab units data thermoSchema = .ok p) {m : Member} (hm : m ∈ thermoSchema)
+    {x : Option (String × LVal)} (hx : loadMember tab units data m = .ok x) : p.lookup m.name = x.map Prod.snd := by
+  obtain ⟨x', hx', hl⟩ := loadMembers_lookup thermoSchema p thermoSchema_nodup hp m hm
+  rw [hx] at hx'; cases hx'; exact hl
+
 end PGA.Yaml
